@@ -234,7 +234,7 @@ def run_accepted_anyway(case, outdir):
 
 def run_case(case):
     v = case['v']
-    outdir = genargs.fresh_outdir(nested=v['seed'] % 3 == 0, style=(v['seed'] // 3) % 5)
+    outdir = genargs.fresh_outdir(nested=v['seed'] % 3 == 0, style=(v['seed'] // 3) % 6)
     if case['kind'] == 'accepted_anyway':
         return run_accepted_anyway(case, outdir)
     reused = bool(case.get('prior')) and bool(case.get('prior_same_dir'))
@@ -244,8 +244,13 @@ def run_case(case):
         genargs.run_generator(genargs.build_argv(p, outdir), p['seed'])
     else:
         genargs.run_prior(case.get('prior'))
-    argv = genargs.build_argv(v, outdir)
-    status, code, err = genargs.run_generator(argv, v['seed'])
+    cwd = None
+    if (v['seed'] // 7) % 3 == 0 and not reused:
+        cwd, rel = genargs.relative_outdir(outdir)
+        argv = genargs.build_argv(v, rel)
+    else:
+        argv = genargs.build_argv(v, outdir)
+    status, code, err = genargs.run_generator(argv, v['seed'], cwd=cwd)
     if status != 'ok':
         raise Violation('legal_rejected:' + v['mp'], 'legal argument vector %r exited with %r: %s'
                         % (argv, code, err.strip()[-160:]))
